@@ -46,8 +46,10 @@ type syncInput struct {
 	DelayUS   int   `json:"delayUs,omitempty"`
 	Procs     int   `json:"procs,omitempty"`
 	// receiver-side Filter: "" | zeroOwner (uid,gid := 0) | stripWrite (mode &^ 0222 on files)
-	Filter    string `json:"filter,omitempty"`
-	ReqLateUS int    `json:"reqLateUs,omitempty"`
+	Filter     string `json:"filter,omitempty"`
+	ReqLateUS  int    `json:"reqLateUs,omitempty"`
+	SlowDataUS int    `json:"slowDataUs,omitempty"`
+	Unpriv     bool   `json:"unpriv,omitempty"`
 }
 
 func runSyncInput(c *Ctx, caseNo int, in syncInput) ([]vt.Ev, *SyncResult, error) {
@@ -88,6 +90,10 @@ func runSyncInput(c *Ctx, caseNo int, in syncInput) ([]vt.Ev, *SyncResult, error
 			}
 		}
 	}
+	if in.SlowDataUS > 0 {
+		// slow source reads: every Open takes this long, so listing runs far ahead of content
+		o.SrcFS = &faultFS{FS: mustFS(src), SlowOpen: time.Duration(in.SlowDataUS) * time.Microsecond}
+	}
 	if in.ReqLateUS > 0 {
 		// only the receiver's REQ sends return late (after the request is visible to the sender)
 		d := time.Duration(in.ReqLateUS) * time.Microsecond
@@ -97,6 +103,7 @@ func runSyncInput(c *Ctx, caseNo int, in syncInput) ([]vt.Ev, *SyncResult, error
 			}
 		}
 	}
+	o.Unpriv = in.Unpriv
 	o.Filter = filterByName(in.Filter)
 	o.Extra["filter"] = in.Filter
 	if in.Procs > 0 {
@@ -107,6 +114,14 @@ func runSyncInput(c *Ctx, caseNo int, in syncInput) ([]vt.Ev, *SyncResult, error
 		return nil, nil, err
 	}
 	return res.Events, res, nil
+}
+
+func mustFS(dir string) fsutil.FS {
+	f, err := fsutil.NewFS(dir)
+	if err != nil {
+		panic(err)
+	}
+	return f
 }
 
 // Sync drives real Send against real Receive over trees (C01 and friends).
@@ -212,7 +227,71 @@ func Sync(c *Ctx) error {
 		inputs = append(inputs, syncInput{Src: src, Dst: dst, Mode: mode, Differ: differ,
 			CapS: caps[c.Rand.Intn(len(caps))], CapR: caps[c.Rand.Intn(len(caps))], Origin: origin})
 	}
-	return runSyncInputs(c, inputs)
+	if err := runSyncInputs(c, inputs); err != nil {
+		return err
+	}
+	return syncUnpriv(c)
+}
+
+// syncUnpriv: transfers in which both calls run as an unprivileged owner (no CAP_DAC_OVERRIDE):
+// read-only files, with and without setuid/setgid/sticky, must still arrive with content and mode.
+// The capability drop is process-wide, so these cases run one at a time.
+func syncUnpriv(c *Ctx) error {
+	n := 40
+	if c.Thorough() {
+		n = 300
+	}
+	perms := []uint32{0444, 0400, 04555, 02555, 01444, 04444, 06555, 0644, 04755, 0555, 0600}
+	for i := 0; i < n; i++ {
+		src := RandomTree(c.Rand, genOpts{MaxEntries: 14, Links: true, BigFiles: i%4 == 0})
+		for k := range src {
+			src[k].Uid, src[k].Gid = 0, 0
+			switch src[k].Type {
+			case "dir":
+				src[k].Perm = []uint32{0755, 0700, 01777, 02755}[c.Rand.Intn(4)]
+			case "file":
+				src[k].Perm = perms[c.Rand.Intn(len(perms))]
+			}
+		}
+		// hard-link groups share one inode: one mode per group
+		byGroup := map[int]uint32{}
+		for k := range src {
+			if g := src[k].Group; g != 0 {
+				if p, ok := byGroup[g]; ok {
+					src[k].Perm = p
+				} else {
+					byGroup[g] = src[k].Perm
+				}
+			}
+		}
+		var dst model.Tree
+		if i%3 == 1 {
+			dst, _ = MutateTree(c.Rand, src, genOpts{MaxEntries: 14}, 1+c.Rand.Intn(3))
+			for k := range dst {
+				dst[k].Uid, dst[k].Gid = 0, 0
+				if dst[k].Type == "dir" {
+					dst[k].Perm |= 0700
+				}
+			}
+		}
+		in := syncInput{Src: src, Dst: dst, Mode: "dirty", Differ: "metadata", CapS: 8, CapR: 8, Origin: "unpriv", Unpriv: true}
+		evs, res, err := runSyncInput(c, c.NextCase(), in)
+		if err == errUnprivUnsupported {
+			c.Stats.Count("unprivUnsupportedInThisBuild", 1)
+			return nil
+		}
+		if err != nil {
+			return fmt.Errorf("unpriv case: %w", err)
+		}
+		for _, e := range evs {
+			c.Out.Emit(e)
+		}
+		c.Stats.Count("origin:unpriv", 1)
+		if res.SOK && res.ROK {
+			c.Stats.Count("unprivBothOK", 1)
+		}
+	}
+	return nil
 }
 
 func runSyncInputs(c *Ctx, inputs []syncInput) error {
@@ -348,17 +427,44 @@ func syncHistories(c *Ctx) error {
 		fixed := model.Tree{a, c1, {Path: "d", Type: "dir", Perm: 0755, Mtime: uniqueMtime()}, mk("d/x", 40000, 12), c2,
 			{Path: "dev", Type: "chr", Perm: 0660, Devmajor: 1, Devminor: 7, Mtime: uniqueMtime()},
 			mk("e", 3, 13), {Path: "f", Type: "fifo", Perm: 0644, Mtime: uniqueMtime()},
+			{Path: "o", Type: "dir", Perm: 0755, Uid: 1000, Gid: 1000, Mtime: uniqueMtime()}, mk("o/x", 5, 14), mk("o/z", 6, 15),
 			{Path: "l", Type: "symlink", Perm: 0777, Link: "e", Mtime: uniqueMtime()}}
 		fixed[6].Xattrs = map[string]string{"user.k": "v"}
 		fixed.Sort()
+		// a directory with children is replaced by a symlink to a sibling directory that has children of the
+		// same names: the old children must not be deleted through the new link
+		{
+			swapped := fixed.Clone()
+			var nt model.Tree
+			for _, e := range swapped {
+				if e.Path == "d" {
+					nt = append(nt, model.Entry{Path: "d", Type: "symlink", Link: "o", Perm: 0777, Mtime: uniqueMtime()})
+				} else if !strings.HasPrefix(e.Path, "d/") {
+					nt = append(nt, e)
+				}
+			}
+			nt.Sort()
+			hists = append(hists, syncInput{Origin: "history/dirToSymlinkToSibling", CapS: 8, CapR: 8, Hist: []model.Tree{fixed, nt, nt},
+				Differs: []string{"metadata", "metadata", "metadata"}, HistOps: [][]string{{"initial"}, {"swap:dir>symlink-to-sibling"}, {"none"}}})
+			// chown of a directory to the receiver's own identity
+			own := fixed.Clone()
+			for k := range own {
+				if own[k].Path == "o" {
+					own[k].Uid, own[k].Gid = 0, 0
+				}
+			}
+			hists = append(hists, syncInput{Origin: "history/chownDirToReceiver", CapS: 8, CapR: 8, Hist: []model.Tree{fixed, own, own},
+				Differs: []string{"metadata", "metadata", "metadata"}, HistOps: [][]string{{"initial"}, {"chown:dir-to-root"}, {"none"}}})
+		}
 		for i := range fixed {
 			for op := 0; op < numMutations; op++ {
 				next, ops := MutateAt(c.Rand, fixed, o, i, op)
 				if len(ops) == 0 {
 					continue
 				}
-				hists = append(hists, syncInput{Origin: "history/single", CapS: 8, CapR: 8, Hist: []model.Tree{fixed, next},
-					Differs: []string{"metadata", "metadata"}, HistOps: [][]string{{"initial"}, ops}})
+				// the edit, then a re-sync of the unchanged result (which must be silent)
+				hists = append(hists, syncInput{Origin: "history/single", CapS: 8, CapR: 8, Hist: []model.Tree{fixed, next, next},
+					Differs: []string{"metadata", "metadata", "metadata"}, HistOps: [][]string{{"initial"}, ops, {"none"}}})
 			}
 		}
 	}
@@ -474,6 +580,28 @@ func syncSchedules(c *Ctx) error {
 	}
 	o := genOpts{MaxEntries: 45, Special: false, Xattrs: true, Links: true, BigFiles: true}
 	c.Stats.Rule = "one case = one real transfer of a fixed (source, prior destination) pair under one schedule (capacities, delay seed, GOMAXPROCS); non-trivial = at least 5 multi-chunk files in flight; distinct by (pair, schedule)"
+	// fan-out under a slow data path: more than 64 / 132 files outstanding with hundreds of STATs behind them
+	{
+		var fan model.Tree
+		for k := 0; k < 420; k++ {
+			e := newFile(c.Rand, genOpts{})
+			e.Path = fmt.Sprintf("f%04d", k)
+			fan = append(fan, e)
+		}
+		for si := 0; si < 3; si++ {
+			in := syncInput{Src: fan, Mode: "dirty", Differ: "metadata", Origin: "sched/fanout", CapS: []int{0, 8, 64}[si], CapR: []int{64, 1, 0}[si],
+				SlowDataUS: []int{1500, 400, 3000}[si]}
+			evs, _, err := runSyncInput(c, c.NextCase(), in)
+			if err != nil {
+				return err
+			}
+			for _, e := range evs {
+				c.Out.Emit(e)
+			}
+			c.Stats.Case(vt.Opaque(struct{ F, S int }{420, si}), true)
+			c.Stats.Count("runs", 1)
+		}
+	}
 	for ci := 0; ci < nCases; ci++ {
 		src := RandomTree(c.Rand, o)
 		// make sure many multi-chunk files are in flight at once
@@ -550,6 +678,7 @@ type filteredInput struct {
 	Stack  [][3][]string `json:"stack"` // per layer: include, exclude, followPaths
 	CapS   int           `json:"capS"`
 	CapR   int           `json:"capR"`
+	SubDir bool          `json:"subDir,omitempty"`
 	Origin string        `json:"origin"`
 }
 
@@ -632,16 +761,43 @@ func runFiltered(c *Ctx, caseNo int, in filteredInput) ([]vt.Ev, *SyncResult, er
 		}
 	}
 	var selDiff [][][]int
+	var selIdx []int
 	for i := range snap {
 		if naive[i] != incr[i] {
 			selDiff = append(selDiff, vt.P(snap[i].Path))
+			selIdx = append(selIdx, i)
 		}
 	}
 	if selDiff == nil {
 		selDiff = [][][]int{}
 	}
+	pfx := ""
+	snapEv := snap
+	if in.SubDir {
+		// the filtered view mounted under a name by SubDirFS: the outermost layer is not the filter
+		pfx = "sub/"
+		sd, err := fsutil.SubDirFS([]fsutil.Dir{{Stat: &types.Stat{Path: "sub", Mode: uint32(os.ModeDir | 0755)}, FS: f}})
+		if err != nil {
+			return nil, nil, err
+		}
+		f = sd
+		snapEv = model.Tree{{Path: "sub", Type: "dir", Perm: 0755}}
+		for _, e := range snap {
+			e.Path = pfx + e.Path
+			snapEv = append(snapEv, e)
+		}
+		snapEv.Canon(func(e *model.Entry) string {
+			if e.Nlink > 1 {
+				return fmt.Sprint(e.Ino)
+			}
+			return ""
+		})
+		for k := range selDiff {
+			selDiff[k] = vt.P(pfx + snap[selIdx[k]].Path)
+		}
+	}
 	content := func(p string) ([]byte, bool) {
-		rc, err := f.Open(p)
+		rc, err := f.Open(pfx + p)
 		if err != nil {
 			return nil, false
 		}
@@ -651,12 +807,13 @@ func runFiltered(c *Ctx, caseNo int, in filteredInput) ([]vt.Ev, *SyncResult, er
 	}
 	res, err := RunSync(caseNo, src, dst, SyncOpts{Mode: "dirty", Differ: "metadata", CapS2R: in.CapS, CapR2S: in.CapR, SrcFS: f,
 		Content: func(p string) ([]byte, bool) {
+			p = strings.TrimPrefix(p, pfx)
 			if e := snap.Find(p); e == nil || e.Type != "file" {
 				return nil, false
 			}
 			return content(p)
 		},
-		Extra: vt.Ev{"input": vt.Opaque(in), "src": snap.Ev(), "origin": in.Origin, "filtered": true, "patternOnly": patternOnly, "selDiff": selDiff}})
+		Extra: vt.Ev{"input": vt.Opaque(in), "src": snapEv.Ev(), "origin": in.Origin, "filtered": true, "patternOnly": patternOnly, "selDiff": selDiff}})
 	if err != nil {
 		return nil, nil, err
 	}
@@ -671,7 +828,7 @@ func runFiltered(c *Ctx, caseNo int, in filteredInput) ([]vt.Ev, *SyncResult, er
 		if ok {
 			cid = model.ContentID(b)
 		}
-		opens = append(opens, vt.Ev{"ev": "Open", "case": caseNo, "p": vt.P(e.Path), "ok": ok, "c": cid, "want": e.Content})
+		opens = append(opens, vt.Ev{"ev": "Open", "case": caseNo, "p": vt.P(pfx + e.Path), "ok": ok, "c": cid, "want": e.Content})
 	}
 	evs := res.Events
 	end := evs[len(evs)-1]
@@ -757,6 +914,7 @@ func syncFiltered(c *Ctx) error {
 			}
 			in.Stack = append(in.Stack, [3][]string{inc, exc, fol})
 		}
+		in.SubDir = c.Rand.Intn(4) == 0
 		evs, res, err := runFiltered(c, c.NextCase(), in)
 		if err != nil {
 			return err
@@ -778,7 +936,7 @@ func syncFiltered(c *Ctx) error {
 		for _, e := range t {
 			if e.Group != 0 {
 				v := byGroup[e.Group]
-				if reported[e.Path] {
+				if reported[e.Path] || reported["sub/"+e.Path] {
 					v[0]++
 				} else {
 					v[1]++
